@@ -500,7 +500,9 @@ impl<'a> G<'a> {
         let mut out = vec![];
         for n in self.names.clone() {
             if let Some(Bound { val: Some(v), .. }) = self.w.lookup(&n) {
-                if self.w.frames.contains_key(&n) { continue; }
+                // (a fold iterator is a source too: `(fold xs g (fold g.$.members m …))` builds the inner elements' tetraplets in
+                //  `create_scalar_wl_iterable`'s iterator branch; the whole iterator as an iterable is left out)
+                if self.w.frames.contains_key(&n) && !matches!(&v, Value::Object(_)) { continue; }
                 match &v {
                     Value::Array(a) if !a.is_empty() => out.push((Val::Scalar(n.clone()), a.len())),
                     Value::Object(o) => { for (k, x) in o { if let Value::Array(a) = x { if !a.is_empty() { out.push((Val::ScalarLens(n.clone(), format!(".$.{k}")), a.len())); } }
@@ -691,6 +693,7 @@ fn fixed_scenarios(ids: &[String]) -> Vec<(&'static str, String)> {
         ("canon_whole", format!(r#"(seq (call "{a}" ("svc" "obj_1") [] x) (seq (ap x $s) (seq (call "{b}" ("svc" "str_2") [] $s) (seq (ap x.$.arr $s) (seq (ap "lit" $s) (seq (canon "{c}" $s #cs) (seq (call "{a}" ("svc" "echo_3") [#cs x #cs]) (seq (fold #cs i (seq (call "{b}" ("svc" "echo_4") [i "e"]) (next i))) (seq (ap #cs whole) (call "{b}" ("svc" "echo_5") [whole]))))))))))"#)),
         ("canon_lens", format!(r#"(seq (call "{a}" ("svc" "obj_1") [] x) (seq (ap x $s) (seq (canon "{b}" $s #cs) (call "{c}" ("svc" "echo_2") [#cs.$.[0].arr #cs.$.[0]]))))"#)),
         ("canon_map", format!(r#"(seq (call "{a}" ("svc" "obj_1") [] x) (seq (ap ("k1" x) %m) (seq (ap ("k2" "lit") %m) (seq (ap ("k1" x.$.s) %m) (seq (ap ("k3" x.$.nested) %m) (seq (canon "{b}" %m #%cm) (call "{c}" ("svc" "echo_2") [#%cm #%cm.$.k1 #%cm.$.k1.[0] #%cm.$.k2.[0] #%cm.$.k1.[1] #%cm.$.k3.[0].a #%cm.$.k1.[0].arr.[1]])))))))"#)),
+        ("nested_fold_iterator_lens", format!(r#"(seq (call "{a}" ("svc" "obj_1") [] x) (seq (ap x $s) (seq (call "{b}" ("svc" "obj_2") [] $s) (seq (canon "{b}" $s #cs) (seq (call "{c}" ("svc" "echo_3") [#cs] y) (fold y g (seq (fold g.$.arr m (seq (call "{a}" ("svc" "echo_4") [m g.$.s]) (next m))) (seq (fold g.$.nested.a n (seq (call "{b}" ("svc" "echo_5") [n]) (next n))) (next g)))))))))"#)),
         ("iterator_lens", format!(r#"(seq (call "{a}" ("svc" "obj_1") [] x) (seq (ap x $s) (seq (call "{b}" ("svc" "obj_2") [] $s) (seq (canon "{b}" $s #cs) (seq (call "{c}" ("svc" "echo_3") [#cs] y) (seq (fold y i (seq (call "{a}" ("svc" "echo_4") [i.$.arr i.$.nested.a.[0] i i.$.arr.[1]]) (next i))) (fold #cs j (seq (call "{b}" ("svc" "echo_5") [j.$.s j j.$.peers.[0]]) (next j)))))))))"#)),
         ("twice", format!(r#"(seq (call "{a}" ("svc" "obj_1") [] x) (call "{b}" ("svc" "echo_2") [x x x.$.n x.$.n x]))"#)),
     ]
